@@ -4,7 +4,9 @@ One SoftwareSwitch (no controller object) is driven byte-level: controller messa
 pvf.ref.ctlbytes (struct, from the OF 1.0 spec) and pushed into the switch's OFConnection; what the
 switch writes is cut into messages and decoded by the same independent codec; frames enter with
 rx_packet and leave as DpPacketOut events.  A history of small op records is interpreted against the
-real switch and the BufferPool model (id -> stored frame, in_port) in lock-step.
+real switch and the BufferPool model (id -> stored frame, in_port) in lock-step.  The switch's port set may change
+in the middle of a history (delete_port / add_port): that uses no buffer, so every id from a surviving port must
+keep identifying its packet.
 """
 import itertools
 
@@ -18,8 +20,9 @@ ID = "C18"
 LEVEL = "exploration"
 TECHNIQUE = "model-based stateful testing: Hypothesis-drawn and exhaustively enumerated op histories against a buffer-pool model, byte-level"
 LEVEL_TEXT = ("Exploration of operation histories: every history of up to 4 (quick) / 5 (thorough) operations over a 13-letter alphabet is "
-              "enumerated for pool sizes 0..2 (quick) / 0..4 (thorough), and Hypothesis draws histories of up to 60 operations for pool "
-              "sizes 0..4; each is run against the real switch through its byte-level connection and judged step by step against an "
+              "enumerated for pool sizes 0..2 (quick) / 0..4 (thorough), every history of up to 5 (quick) / 6 (thorough) operations over a second "
+              "8-letter alphabet in which a port is removed and re-added while buffers are outstanding is enumerated for pool sizes 2..3 / 2..4, "
+              "and Hypothesis draws histories of up to 60 operations for pool sizes 0..4; each is run against the real switch through its byte-level connection and judged step by step against an "
               "independent buffer-pool model. The property is about operation histories of a small state machine, so bounded exhaustive "
               "enumeration plus random long histories is the fitting level; nothing is claimed beyond the explored bounds.")
 LEVEL_NOTE = ("the reference codec pvf/ref/ctlbytes.py and the model pvf/ref/swshadow.py are trusted; actions are restricted to plain outputs; "
@@ -27,8 +30,11 @@ LEVEL_NOTE = ("the reference codec pvf/ref/ctlbytes.py and the model pvf/ref/sws
 RULE = ("a case is (max_buffers 0..4, initial miss_send_len, list of ops); ops are frame arrival to one of 4 destinations (a miss unless a "
         "flow for that destination was installed earlier in the history), flow_mod with or without a buffer id, flow delete, port_mod setting or clearing OFPPC_NO_PACKET_IN, packet_out with a "
         "buffer id chosen relative to the model state (outstanding / already used / zero / never issued / out of range), set_config and "
-        "features request; a case is non-trivial when a released id is issued again, or a packet-in had to go out unbuffered because the "
-        "pool was full (size > 0), or an already-used id is used again; distinct by SHA-1 of the canonical JSON of the case")
+        "features request, and removal / re-addition of a switch port (SoftwareSwitch.delete_port / add_port, the calls PCapSwitch makes when an "
+        "interface goes or comes) chosen among the ports that exist / are absent at that point; a case is non-trivial when a released id is "
+        "issued again, or a packet-in had to go out unbuffered because the pool was full (size > 0), or an already-used id is used again, or "
+        "a buffer that was outstanding while a port other than its ingress port was removed is used afterwards; distinct by SHA-1 of the "
+        "canonical JSON of the case")
 ASSUMPTIONS = [
   "frames are Ethernet II with the experimental ethertype 0x88b5, untagged or with one 802.1Q tag, so that POX's parse/re-pack is the identity and no packet-library behaviour is judged here",
   "actions are outputs (physical port, IN_PORT, FLOOD, ALL, CONTROLLER), the byte-wise simple rewrites set_dl_dst / set_vlan_vid / set_vlan_pcp, and unknown or vendor actions; a packet is not sent back out of its ingress port unless IN_PORT is named (OF 1.0 sec. 3.3)",
@@ -41,10 +47,19 @@ ASSUMPTIONS = [
   "some packet-outs / flow-mods that use a buffer are built with POX's own controller-side classes from the received packet-in "
   "(flow_mod.data = packet_in) and packed by them; that is stimulus only, every judgement still comes from the independent codec and model",
   "set_config is sent with fragment-handling flags 0, 1 or 2; its miss_send_len binds later packet-ins whatever the flags",
+  "a change of the switch's port set (a port removed or added) is not a use of any buffer: every id whose packet came in on a port that "
+  "still exists keeps identifying exactly that packet, and ids handed out afterwards do not collide with it; outputs go to the ports that "
+  "exist when the buffer is used (a removed port receives nothing, IN_PORT of a removed ingress port reaches nothing)",
+  "what becomes of a packet whose own ingress port is removed while it is buffered is left open: the id is either still good (then it "
+  "releases exactly that packet) or has been discarded (then it emits nothing); the slot counts as possibly occupied",
+  "frames arrive only on ports that exist at that moment, and port_mod names only existing ports",
 ]
 EXHAUSTIVE_SCOPE = {
-  "quick": "all histories of length 1..4 over the 13-op alphabet _ALPHABET, for max_buffers in {0,1,2}, miss_send_len 20",
-  "thorough": "all histories of length 1..5 over the 13-op alphabet _ALPHABET for max_buffers in 0..4, miss_send_len 20",
+  "quick": "all histories of length 1..4 over the 13-op alphabet _ALPHABET, for max_buffers in {0,1,2}, miss_send_len 20; "
+           "all histories over the 8-op alphabet _PORT_ALPHABET (misses on three ports, removal / re-addition of a port, "
+           "buffer uses) of length 1..4 for max_buffers 2 and 1..5 for max_buffers 3, miss_send_len 20",
+  "thorough": "all histories of length 1..5 over the 13-op alphabet _ALPHABET for max_buffers in 0..4, miss_send_len 20; "
+              "all histories over _PORT_ALPHABET of length 1..6 for max_buffers 3 and 1..5 for max_buffers 2 and 4",
 }
 
 PORTS = [1, 2, 3, 4]
@@ -123,6 +138,8 @@ class _Run(object):
     self.pool = BufferPool(self.maxb)
     self.pin_raw = {}         # buffer id -> the packet-in message that announced it, as sent by the switch
     self.nopin = set()        # ports with OFPPC_NO_PACKET_IN
+    self.live = list(PORTS)   # ports the switch has at the moment, ascending
+    self.survivors = set()    # ids that were outstanding while a port other than their ingress port was removed
     self.hw = {}
     self.risk = {}            # buffer id -> its packet object may have been rewritten after it was buffered
     self.flows = {}           # slot -> action list
@@ -266,8 +283,16 @@ class _Run(object):
             if b not in pool.out and b not in pool.ever]
     return cand[i % len(cand)], "oor"
 
+  def pick_port(self, i, among):
+    """the i-th of the four ports when it is among the candidates, else the i-th candidate (modulo): never rejects"""
+    p = PORTS[i % len(PORTS)]
+    return p if p in among else among[i % len(among)]
+
   def op_frame(self, op):
-    port = PORTS[op["port"] % len(PORTS)]
+    if not self.live:
+      self.out.label("frame-skipped-no-port-left")
+      return
+    port = self.pick_port(op["port"], self.live)
     frame = _frame(op["dst"], port, op["len"], op.get("fill", 0), op.get("vlan"))
     if op.get("vlan") is not None:
       self.out.label("frame-vlan-tagged")
@@ -291,7 +316,7 @@ class _Run(object):
       want = None
     else:
       kind = "hit"
-      want = expected_outputs(_model_acts(acts), frame, port, PORTS)[1]
+      want = expected_outputs(_model_acts(acts), frame, port, self.live)[1]
       if want:
         self.out.label("hit-with-controller-action")
         if any(f != frame for _, f in want):
@@ -359,7 +384,13 @@ class _Run(object):
     frame, in_port = known
     was_risky = bool(self.risk.get(bid))
     aliased = "yes" if was_risky else "no"
-    want_emits, want_ctl = expected_outputs(_model_acts(prefix), frame, in_port, PORTS)
+    want_emits, want_ctl = expected_outputs(_model_acts(prefix), frame, in_port, self.live)
+    if bid in self.survivors:
+      self.survivors.discard(bid)
+      self.survived_use = True
+      self.out.label("use-of-buffer-that-outlived-a-port-removal")
+    if in_port not in self.live:
+      self.out.label("use-of-buffer-whose-ingress-port-is-gone")
     if any(a[0] in ("set_dl_dst", "set_vlan_vid", "set_vlan_pcp") for a in prefix):
       self.out.label("use-with-rewrite")
     if in_port in self.nopin and not pins:
@@ -432,7 +463,9 @@ class _Run(object):
     self.split_msgs(self.recv("set-config"), "set-config")
 
   def op_port_mod(self, op):
-    port = PORTS[op["port"] % len(PORTS)]
+    if not self.live:
+      return
+    port = self.pick_port(op["port"], self.live)
     on = (port not in self.nopin) if op.get("toggle") else bool(op.get("on"))
     self.send(cb.port_mod(self.nxid(), port, self.hw[port], cb.OFPPC_NO_PACKET_IN if on else 0, cb.OFPPC_NO_PACKET_IN), barrier=True)
     if on:
@@ -440,6 +473,48 @@ class _Run(object):
     else:
       self.nopin.discard(port)
     self.split_msgs(self.recv("port-mod"), "port-mod", allowed=(cb.OFPT_PORT_STATUS,))
+
+  def op_port_del(self, op):
+    """The switch loses a port (what PCapSwitch.remove_interface does).  No buffer is used by that."""
+    if not self.live:
+      self.out.label("port-del-skipped-none-left")
+      return
+    port = self.pick_port(op["port"], self.live)
+    self.sw.sw.delete_port(port)
+    self.live.remove(port)
+    self.nopin.discard(port)
+    pool = self.pool
+    orphans = [b for b in pool.outstanding() if pool.out[b][1] == port]
+    others = [b for b in pool.outstanding() if pool.out[b][1] != port]
+    for b in orphans:
+      pool.suspend(b)           # left open: still good, or discarded with its port
+    self.survivors.update(others)
+    self.out.label("port-del")
+    if orphans:
+      self.out.label("port-del-with-own-packets-buffered")
+    if others:
+      self.out.label("port-del-with-other-ports-packets-buffered")
+    if orphans and others and min(orphans) < max(others):
+      self.out.label("port-del-own-packet-in-lower-slot-than-another")
+    self.split_msgs(self.recv("port-del"), "port-del", allowed=(cb.OFPT_PORT_STATUS,))
+    self.sw.take_emitted()
+
+  def op_port_add(self, op):
+    """A port the switch does not have at the moment (re)appears, with a fresh configuration."""
+    absent = [p for p in PORTS if p not in self.live]
+    if not absent:
+      self.out.label("port-add-skipped-all-present")
+      return
+    port = self.pick_port(op["port"], absent)
+    self.sw.sw.add_port(self.sw.sw.generate_port(port))
+    self.live = sorted(self.live + [port])
+    self.out.label("port-add")
+    for m in self.recv("port-add"):
+      if m["type"] == cb.OFPT_PORT_STATUS:
+        self.hw[m["desc"]["port_no"]] = m["desc"]["hw_addr"]
+      else:
+        self.split_msgs([m], "port-add")
+    self.sw.take_emitted()
 
   def op_features(self, op=None):
     x = self.nxid()
@@ -456,7 +531,7 @@ class _Run(object):
       self.fail("n-buffers-advertised", "features reply advertises %d buffers, the switch was built with %d" % (fr[0]["n_buffers"], self.maxb))
 
   def run(self):
-    self.fallback = self.reissue = self.double = False
+    self.fallback = self.reissue = self.double = self.survived_use = False
     self.send(cb.hello(1))
     self.op_features()
     for i, op in enumerate(self.case["ops"]):
@@ -476,12 +551,18 @@ class _Run(object):
         self.op_features(op)
       elif o == "port_mod":
         self.op_port_mod(op)
+      elif o == "port_del":
+        self.op_port_del(op)
+      elif o == "port_add":
+        self.op_port_add(op)
       else:
         raise HarnessError("unknown op %r" % (o,))
       if len(self.pool.out) > self.maxb:
         self.fail("pool-bound", "%d packets are stored, the switch advertises %d buffers" % (len(self.pool.out), self.maxb))
     out = self.out
-    out.nontrivial = bool(self.fallback or self.reissue or self.double)
+    out.nontrivial = bool(self.fallback or self.reissue or self.double or self.survived_use)
+    if self.survived_use:
+      out.label("nt-use-after-port-removal")
     if self.fallback:
       out.label("nt-full-pool-fallback")
     if self.reissue:
@@ -543,6 +624,30 @@ def _enum(tier):
         yield {"max_buffers": mb, "miss_send_len": 20, "ops": [_ALPHABET[i] for i in combo]}
 
 
+# the port set changes under outstanding buffers: misses on three ports, a port goes / comes back, ids are used
+_PORT_ALPHABET = [
+  {"o": "frame", "dst": 0, "port": 0, "len": 40, "fill": 1},
+  {"o": "frame", "dst": 1, "port": 1, "len": 50, "fill": 3},
+  {"o": "frame", "dst": 2, "port": 3, "len": 30, "fill": 5},
+  {"o": "port_del", "port": 0},
+  {"o": "port_add", "port": 0},
+  {"o": "pout", "buf": {"k": "live", "i": 0}, "acts": [["flood"]]},
+  {"o": "pout", "buf": {"k": "live", "i": 1}, "acts": [["port", 3], ["in_port"]]},
+  {"o": "flow", "slot": 3, "buf": {"k": "limbo", "i": 0}, "acts": [["all"]], "cmd": "add"},
+]
+
+
+def _enum_ports(tier):
+  if tier == "thorough":
+    plans = [(2, 5), (3, 6), (4, 5)]
+  else:
+    plans = [(2, 4), (3, 5)]
+  for mb, depth in plans:
+    for n in range(1, depth + 1):
+      for combo in itertools.product(range(len(_PORT_ALPHABET)), repeat=n):
+        yield {"max_buffers": mb, "miss_send_len": 20, "ops": [_PORT_ALPHABET[i] for i in combo]}
+
+
 # --------------------------------------------------------------------------- Hypothesis
 
 _LENS = [14, 15, 20, 21, 60, 63, 64, 65, 114, 127, 128, 129, 200, 300, 1514]
@@ -590,7 +695,9 @@ def _s_op():
                                 "flags": st.sampled_from([0, 0, 1, 2, 2])})
   feat = st.just({"o": "features"})
   pmod = st.fixed_dictionaries({"o": st.just("port_mod"), "port": st.integers(0, 3), "on": st.booleans()})
-  return st.one_of(frame, frame, frame, frame, frame, pout, pout, pout, flow, flow, flow_del, setc, feat, pmod)
+  pdel = st.fixed_dictionaries({"o": st.just("port_del"), "port": st.integers(0, 3)})
+  padd = st.fixed_dictionaries({"o": st.just("port_add"), "port": st.integers(0, 3)})
+  return st.one_of(frame, frame, frame, frame, frame, pout, pout, pout, flow, flow, flow_del, setc, feat, pmod, pdel, padd)
 
 
 def _strategy(tier, max_len):
@@ -606,9 +713,11 @@ def plan(tier):
   if tier == "quick":
     return [
       Enum("histories-exhaustive", lambda: _enum("quick"), shards=16),
+      Enum("port-changes-exhaustive", lambda: _enum_ports("quick"), shards=16),
       Hyp("histories-generated", lambda: _strategy(tier, 60), examples=4000, shards=16),
     ]
   return [
     Enum("histories-exhaustive", lambda: _enum("thorough"), shards=16),
-    Hyp("histories-generated", lambda: _strategy(tier, 60), examples=160000, shards=16),
+    Enum("port-changes-exhaustive", lambda: _enum_ports("thorough"), shards=16),
+    Hyp("histories-generated", lambda: _strategy(tier, 60), examples=144000, shards=16),
   ]
